@@ -22,6 +22,8 @@ def tasks(ctx, quick):
                       "targets": rng.sample(FRACS, 5 if quick else len(FRACS))})
         if i % 4 == 1:
             items[-1]["reuse"] = rng.choice([1e-3, 0.01, 100.0])
+        if i % 4 == 3:
+            items[-1]["abundance"] = "IAEA1987"
     # two-step ('2n') products that matter at the answer: strong flux, long exposure
     for f in TWO_STEP:
         for fl, ex in ([(1e13, 1e3)] if quick else [(1e13, 1e3), (1e12, 1e4), (1e13, 100.0), (1e11, 1e4)]):
